@@ -124,7 +124,8 @@ NetOf(s, k) ==
       long == IF "long" \in DOMAIN s THEN s.long ELSE {}
   IN [links |-> [id \in {LinkId(j) : j \in DOMAIN E} |->
                    LET j == CHOOSE j \in DOMAIN E : LinkId(j) = id
-                       N == IF j \in long THEN 12 ELSE SegCount(E, j, k)
+                       \* (homogeneous class: every link the same number of segments as well, so that same-shaped variables abound)
+                       N == IF j \in long THEN 12 ELSE SegCount(E, IF cls = 1 THEN 0 ELSE j, k)
                        c == IF j \in long /\ k % 2 = 0 THEN [ctl |-> TRUE, vsl |-> {2, 9}] ELSE VslOf(j, k, N)
                        u == IF cls = 1 THEN 1 ELSE j       \* table index: one shared slot for the homogeneous class
                        \* every table is entered at a rotation that depends on (shape, variant): consecutive slots keep the
